@@ -185,7 +185,7 @@ u_lengths(uint64_t idx, void *arg)
                              "0..capacity+40 as (truncated) write request");
 }
 
-/* ---- W2: every read block size around the transmit limit ---- */
+/* ---- W2: every read block size around the transmit limit, for every header form a read request can have ---- */
 static void
 u_reads(uint64_t idx, void *arg)
 {
@@ -194,49 +194,71 @@ u_reads(uint64_t idx, void *arg)
     int serial = (int)(idx & 1), mem16 = (int)(idx >> 1) & 1;
     size_t B = bs[(idx >> 2) % 7];
     size_t ws = mem16 ? 2 : 1;
-    size_t hreq = serial ? 14 : 12;
     size_t cap = B - sizeof(RPFrame);
-    long fit_req = ((long)cap - (long)hreq) / (long)ws;   /* fits behind the request header */
-    /* would fit if the response's own header (serial: 16 octets with both checksums, TCP: 12) were reserved */
-    long fit_resp = ((long)cap - (serial ? 16 : 12)) / (long)ws;
     unsigned char raw[64], wire[140];
-    char key[80], ctx[160];
-    for (long n = fit_resp - 20; n <= fit_req + 24; n++) {
-        if (n < 0)
-            continue;
-        fresh(serial, mem16, B);
-        size_t rn = mk_request(raw, serial, RT_READ_REQ, mem16, (uint16_t)n, 0x2000u + (uint32_t)n, (uint32_t)n, NULL, 0);
-        size_t wn = rp_wire(serial, raw, rn, wire);
-        rp_feed(&H, wire, wn);
-        VH_CASE4(idx, B, n, 0);
-        snprintf(key, sizeof key, "workload=reads transport=%s mem=%zu", serial ? "serial" : "tcp", ws * 8);
-        snprintf(ctx, sizeof ctx, "block=%zu read of %ld words (fits behind request header: %ld, with response header: %ld)",
-                 B, n, fit_req, fit_resp);
-        struct obs o;
-        exchange(&o, key, ctx);
-        int acked = o.nf == 1 && !o.rerr[0] && o.r[0].type == RT_READ_RESP && o.r[0].meta == 0
-                    && o.r[0].plen == (size_t)n * ws && H.ncalls == 1;
-        int txo = o.nf == 1 && !o.rerr[0] && o.r[0].type == RT_READ_RESP && o.r[0].meta == 5 && H.ncalls == 0;
-        if (txo) {
-            unsigned char be[4];
-            rp_be32(be, (uint32_t)cap);
-            if (o.r[0].plen != 4 || memcmp(be, o.r[0].payload, 4) != 0 || o.r[0].seq != (uint16_t)n)
-                vh_fail("transmit-overflow-payload", key, "%s: payload %s", ctx, vh_hex(o.r[0].payload, o.r[0].plen > 8 ? 8 : o.r[0].plen));
-        }
-        if (n > fit_req) {
-            VH_COUNT("read that cannot fit");
-            if (!txo)
-                vh_fail("no-transmit-overflow-response", key, "%s: %d backend calls, reply %s", ctx, H.ncalls,
-                        vh_hex(H.out, H.out_n > 30 ? 30 : H.out_n));
-        } else if (n <= fit_resp) {
-            VH_COUNT("read that fits");
-            if (!acked)
-                vh_fail("fitting-read-not-served", key, "%s: %d backend calls, reply %s", ctx, H.ncalls,
-                        vh_hex(H.out, H.out_n > 30 ? 30 : H.out_n));
-        } else {
-            VH_COUNT("read in the zone where the header accounting decides (either answer accepted)");
-            if (!acked && !txo)
-                vh_fail("read-neither-served-nor-refused", key, "%s: reply %s", ctx, vh_hex(H.out, H.out_n > 30 ? 30 : H.out_n));
+    char key[96], ctx[200];
+    /* header forms: the checksum option bits in every combination (the receiver accepts a read request that
+     * declares a payload checksum: there is no payload to verify) */
+    for (unsigned form = 0; form < 4; form++) {
+        unsigned hd = form & 1u, pl = (form >> 1) & 1u;
+        size_t hreq = 12 + 2 * hd + 2 * pl;
+        long fit_req = ((long)cap - (long)hreq) / (long)ws;          /* fits behind the request header */
+        long fit_resp = ((long)cap - (serial ? 16 : 12)) / (long)ws; /* fits with the response's own header reserved */
+        long lo = fit_req < fit_resp ? fit_req : fit_resp, hi = fit_req < fit_resp ? fit_resp : fit_req;
+        for (long n = lo - 20; n <= hi + 24; n++) {
+            if (n < 0)
+                continue;
+            fresh(serial, mem16, B);
+            struct rframe f;
+            memset(&f, 0, sizeof f);
+            f.type = RT_READ_REQ;
+            f.options = (mem16 ? ROPT_W16 : 0) | (hd ? ROPT_HDCRC : 0) | (pl ? ROPT_PLCRC : 0);
+            f.seq = (uint16_t)n;
+            f.addr = 0x2000u + (uint32_t)n;
+            f.bsize = (uint32_t)n;
+            size_t rn = rp_encode_raw(&f, raw);
+            size_t wn = rp_wire(serial, raw, rn, wire);
+            rp_feed(&H, wire, wn);
+            VH_CASE4(idx, B, n, form);
+            snprintf(key, sizeof key, "workload=reads transport=%s mem=%zu header=%s%s", serial ? "serial" : "tcp", ws * 8,
+                     hd ? "hdcrc" : "plain", pl ? "+plcrc" : "");
+            snprintf(ctx, sizeof ctx,
+                     "block=%zu request header %zu octets, read of %ld words (fits behind the request header: %ld, with the "
+                     "response header reserved: %ld)", B, hreq, n, fit_req, fit_resp);
+            struct obs o;
+            exchange(&o, key, ctx);
+            if (o.errid != 0) {
+                vh_fail("read-request-rejected", key, "%s: error.id=%d", ctx, o.errid);
+                continue;
+            }
+            int acked = o.nf == 1 && !o.rerr[0] && o.r[0].type == RT_READ_RESP && o.r[0].meta == 0
+                        && o.r[0].plen == (size_t)n * ws && H.ncalls == 1;
+            int txo = o.nf == 1 && !o.rerr[0] && o.r[0].type == RT_READ_RESP && o.r[0].meta == 5 && H.ncalls == 0;
+            if (txo) {
+                unsigned char be[4];
+                rp_be32(be, (uint32_t)cap);
+                if (o.r[0].plen != 4 || memcmp(be, o.r[0].payload, 4) != 0 || o.r[0].seq != (uint16_t)n)
+                    vh_fail("transmit-overflow-payload", key, "%s: payload %s", ctx,
+                            vh_hex(o.r[0].payload, o.r[0].plen > 8 ? 8 : o.r[0].plen));
+            }
+            if (n > hi) {
+                VH_COUNT("read that cannot fit");
+                if (!txo)
+                    vh_fail("no-transmit-overflow-response", key, "%s: %d backend calls, reply %s", ctx, H.ncalls,
+                            vh_hex(H.out, H.out_n > 30 ? 30 : H.out_n));
+            } else if (n <= lo) {
+                VH_COUNT("read that fits");
+                if (!acked)
+                    vh_fail("fitting-read-not-served", key, "%s: %d backend calls, reply %s", ctx, H.ncalls,
+                            vh_hex(H.out, H.out_n > 30 ? 30 : H.out_n));
+            } else {
+                /* between the two accountings: the statement does not say which header counts; never an overflow
+                 * (the room monitor in exchange() decides that) */
+                VH_COUNT("read in the zone where the header accounting decides (either answer accepted)");
+                if (!acked && !txo)
+                    vh_fail("read-neither-served-nor-refused", key, "%s: reply %s", ctx,
+                            vh_hex(H.out, H.out_n > 30 ? 30 : H.out_n));
+            }
         }
     }
     vh_sig(0x09100000ull ^ idx);
